@@ -143,6 +143,18 @@ Proof.
 Qed.
 Print Assumptions unverifiable_is_rejected.
 
+(* The publisher cannot fill the store with blocks of its choosing: whatever it answers,
+   every entry a sync adds to the store is stored under a CID that THIS sync requested (and,
+   by unverifiable_is_rejected and store_sound, hashes to it).  Nothing is kept for a body
+   that failed the check -- under no key at all. *)
+Theorem only_requested_is_stored :
+  forall (body : Type) (hashes_to : body -> cid -> bool) (links_of : body -> option (list edge))
+         (verifiable : cid -> bool) fuel resp q s e,
+    let o := fhandle body hashes_to links_of verifiable fuel resp q s in
+    In e (fh_store body o) -> In e s \/ In (fst e) (fh_reqs body o).
+Proof. exact only_requested_is_stored_proved. Qed.
+Print Assumptions only_requested_is_stored.
+
 (* ---- an honest publisher: C02 computes exactly what C01 computes ---- *)
 
 (* [content c] is the genuine body of block c: it hashes to c and decodes to c's links in
